@@ -290,4 +290,53 @@ def torrentOfMagnet (m : MagnetObj) : Except MErr TorrentView := do
   let ih ← infohashAsBase16 m.infohash
   pure { infohash := ih, name := m.dn, size := m.xl, trackers := m.tr, webseeds := m.ws }
 
+/-! ## histories on one magnet object: edits and renderings
+    `Magnet.__str__` reads the fields the object holds at that moment — the code keeps no memo of an
+    earlier rendering.  An edit is an arbitrary function of the object's field values; it reaches the
+    object through a property setter (`m.dn = …`, `m.kt = …`), through a method of the monitored lists
+    the `tr` / `ws` getters hand out (`m.tr.append(…)`), or in place on the **plain** list / dict the
+    `kt` / `x` getters hand out (`m.kt.append(…)`, `m.x[k] = v`: the stored objects themselves, no copy,
+    no callback).  `__str__` does not distinguish them. -/
+
+inductive MOp where
+  | set (g : MagnetObj → MagnetObj)          -- a property setter
+  | listEdit (g : MagnetObj → MagnetObj)     -- in place on `m.tr` / `m.ws` (MonitoredList)
+  | plainEdit (g : MagnetObj → MagnetObj)    -- in place on `m.kt` (list) / `m.x` (dict)
+  | str                                      -- `str(m)`
+
+/-- run a history on one object; collects what every `str(m)` returned -/
+def runR (m : MagnetObj) : List MOp → List Str × MagnetObj
+  | [] => ([], m)
+  | .set g :: ops => runR (g m) ops
+  | .listEdit g :: ops => runR (g m) ops
+  | .plainEdit g :: ops => runR (g m) ops
+  | .str :: ops => let rs := runR m ops; (render m :: rs.1, rs.2)
+
+/-- A variant that is *not* the code (seeded change C13-4a): `__str__` keeps the rendered string
+    until a setter (`__setattr__`) or a change callback of the `tr` / `ws` lists drops it — in-place
+    edits of the plain `kt` list and `x` dict go unnoticed. -/
+def runMemo (m : MagnetObj) (cache : Option Str) : List MOp → List Str × MagnetObj
+  | [] => ([], m)
+  | .set g :: ops => runMemo (g m) none ops
+  | .listEdit g :: ops => runMemo (g m) none ops
+  | .plainEdit g :: ops => runMemo (g m) cache ops
+  | .str :: ops =>
+    match cache with
+    | some s => let rs := runMemo m (some s) ops; (s :: rs.1, rs.2)
+    | none => let rs := runMemo m (some (render m)) ops; (render m :: rs.1, rs.2)
+
+/-- Another variant that is not the code but *is* faithful: the rendered string is kept together with
+    the field values it was rendered from and reused only while the object still holds those values. -/
+def runValueMemo (m : MagnetObj) (cache : Option (MagnetObj × Str)) : List MOp → List Str × MagnetObj
+  | [] => ([], m)
+  | .set g :: ops => runValueMemo (g m) cache ops
+  | .listEdit g :: ops => runValueMemo (g m) cache ops
+  | .plainEdit g :: ops => runValueMemo (g m) cache ops
+  | .str :: ops =>
+    match cache with
+    | some (m', s) =>
+      if m' = m then let rs := runValueMemo m cache ops; (s :: rs.1, rs.2)
+      else let rs := runValueMemo m (some (m, render m)) ops; (render m :: rs.1, rs.2)
+    | none => let rs := runValueMemo m (some (m, render m)) ops; (render m :: rs.1, rs.2)
+
 end Torf.Magnet
